@@ -2,7 +2,7 @@ SPEC = dict(
     props_file="Props/C24.v",
     level="proof",
     observers=[dict(cmd="obs_pool", imports=["Model.Pool"], case_type="Pool.case", check="Pool.check_case",
-                    n={"quick": 450, "thorough": 12000}, shard=75, timeout={"quick": 600, "thorough": 3000})],
+                    n={"quick": 600, "thorough": 12000}, shard=75, timeout={"quick": 600, "thorough": 3000})],
     rule="real pool.go driven by 2-8 goroutines x 1-4 acquisitions each on pools of capacity 1-3 with background / cancellable / "
          "already-cancelled contexts, cancellation after a delay or exactly between the wait-condition check and cond.Wait "
          "(yield hook), failing dials (shared dead wire or wire with an error), wires whose timer cannot be stopped, broken / "
